@@ -29,6 +29,7 @@ type Case struct {
 	Cert       bool     `json:"cert,omitempty"`
 	Inter      string   `json:"intermediates,omitempty"` // functionary certificates two intermediates below the root: separate-files | bundle | withheld
 	Lstrip     bool     `json:"lstrip,omitempty"`
+	DotFiles   bool     `json:"dot_slash_file_arguments,omitempty"` // with lstrip: artifacts are named file by file as ./src/<file> and the strip prefix is written ./src/
 	NoMetaDir  bool     `json:"no_metadata_directory,omitempty"`
 	Output     string   `json:"output,omitempty"` // silent | one-line | multi-line
 	TwoSigners bool     `json:"two_signers,omitempty"`
@@ -127,7 +128,9 @@ func produce(base string, cs Case) *chain {
 		if !cs.NoMetaDir {
 			a = append(a, "-d", ch.links)
 		}
-		if cs.Lstrip {
+		if cs.Lstrip && cs.DotFiles {
+			a = append(a, "-l", "./"+src+"/")
+		} else if cs.Lstrip {
 			a = append(a, "-l", src+"/")
 		}
 		if cs.DSSE {
@@ -159,17 +162,33 @@ func produce(base string, cs Case) *chain {
 		}
 		var rc int
 		var o string
+		matArg, prodArg := []string{"-m", src}, []string{"-p", src}
+		if cs.DotFiles {
+			// the files one by one, each written ./src/<file> (the step's new file included among the products)
+			l := []string{"./" + src + "/seed"}
+			for j := 0; j < i; j++ {
+				l = append(l, fmt.Sprintf("./%s/file%d", src, j+1))
+			}
+			matArg, prodArg = nil, nil
+			for _, f := range l {
+				matArg = append(matArg, "-m", f)
+			}
+			for _, f := range append(l, fmt.Sprintf("./%s/file%d", src, i+1)) {
+				prodArg = append(prodArg, "-p", f)
+			}
+		}
 		if mode == "run" {
 			args := append([]string{"run"}, common(i)...)
-			args = append(args, "-m", src, "-p", src, "--", "sh", "-c", out+edit)
+			args = append(append(args, matArg...), prodArg...)
+			args = append(args, "--", "sh", "-c", out+edit)
 			rc, o = sh(ch.proj, args...)
 		} else {
 			args := append([]string{"record", "start"}, common(i)...)
-			rc, o = sh(ch.proj, append(args, "-m", src)...)
+			rc, o = sh(ch.proj, append(args, matArg...)...)
 			if rc == 0 {
 				exec.Command("sh", "-c", "cd "+ch.proj+" && "+edit).Run()
 				args = append([]string{"record", "stop"}, common(i)...)
-				rc, o = sh(ch.proj, append(args, "-p", src)...)
+				rc, o = sh(ch.proj, append(args, prodArg...)...)
 			}
 		}
 		if rc != 0 {
@@ -419,6 +438,9 @@ func optTag(cs Case) string {
 	if cs.Lstrip {
 		o = append(o, "lstrip")
 	}
+	if cs.DotFiles {
+		o = append(o, "dot-slash-file-arguments")
+	}
 	if cs.NoMetaDir {
 		o = append(o, "no-metadata-directory")
 	}
@@ -646,7 +668,8 @@ func enumerate(thorough bool, emit func(Case)) {
 	opts := []Case{{}, {DSSE: true}, {Cert: true}, {Lstrip: true}, {NoMetaDir: true}, {Output: "one-line"}, {Output: "multi-line"}, {TwoSigners: true},
 		{DSSE: true, Output: "multi-line"}, {DSSE: true, Cert: true}, {DSSE: true, TwoSigners: true}, {Lstrip: true, NoMetaDir: true}, {OddNames: true}, {OddNames: true, Lstrip: true}, {OddNames: true, DSSE: true},
 		{HexSteps: true}, {HexSteps: true, DSSE: true}, {StaleLinks: true}, {StaleLinks: true, DSSE: true}, {ExpCmd: true}, {ExpCmd: true, DSSE: true},
-		{Cert: true, Inter: "separate-files"}, {Cert: true, Inter: "bundle"}, {Cert: true, Inter: "withheld"}}
+		{Cert: true, Inter: "separate-files"}, {Cert: true, Inter: "bundle"}, {Cert: true, Inter: "withheld"},
+		{Lstrip: true, DotFiles: true}, {Lstrip: true, DotFiles: true, DSSE: true, Output: "one-line"}}
 	if thorough {
 		for _, d := range []bool{false, true} {
 			for _, l := range []bool{false, true} {
